@@ -43,6 +43,7 @@ type Val struct {
 	GK    string
 	GV    string
 	Sort  string // sort of S for scalars when T is nil (spec values)
+	Undef bool   // undefined on this path (e.g. result of a call that did not happen): comparisons are unconstrained
 }
 
 type Owner struct {
